@@ -15,10 +15,12 @@ from harness import smt, tlc
 from harness.common import Check, chunks, pmap, tmap, NPROC
 from harness.smt import A, S
 
-TIERS = {"quick": dict(palette=[48, 49, 53, 57], l1_sample=900, deep=500, deep_inner=150, extended=True,
+TIERS = {"quick": dict(palette=[48, 49, 53, 57], l1_sample=600, deep=300, deep_inner=100, extended=True,
                        cc_len=3, cc_random=500, ls=2, jmax=14, lemma_every=6, Lcc=5),
-         "thorough": dict(palette=[48, 49, 50, 53, 57], l1_sample=None, deep=3000, deep_inner=800, extended=True,
-                          cc_len=4, cc_random=4000, ls=3, jmax=18, lemma_every=4, Lcc=6)}
+         "thorough": dict(palette=[48, 49, 50, 53, 57], l1_sample=None, deep=2500, deep_inner=600, extended=True,
+                          cc_len=4, cc_random=4000, ls=3, jmax=16, lemma_every=8, Lcc=6)}
+# development aid: VERIF_C15_SCALE=0.3 runs a tier with 30% of its sampled/random cases
+SCALE = float(os.environ.get("VERIF_C15_SCALE", "1") or 1)
 JCFG = ("CONSTANTS DigitPalette = {48}\nCcLen = 1\nINIT JInit\nNEXT JNext\nINVARIANT Judged\nINVARIANT Count\n"
         "CHECK_DEADLOCK FALSE\n")
 
@@ -285,7 +287,10 @@ def generate(chk, P, wd):
 
 
 def run(chk, cases_in=None):
-    P = TIERS[chk.tier]
+    P = dict(TIERS[chk.tier])
+    if SCALE != 1:
+        for key in ("l1_sample", "deep", "deep_inner", "cc_random"):
+            P[key] = max(1, int((P[key] or 3200) * SCALE))
     wd = tlc.workdir("c15")
     try:
         cases = generate(chk, P, wd) if cases_in is None else cases_in
@@ -400,7 +405,7 @@ def main(tier):
         "palette %s (%s), plus %d seeded depth-2/3 expressions with signs only in front, %d with signs wherever the grammar allows "
         "them, the %d docstring/pinned examples and %d expressions outside the documented shape (diagnostics only). Per result "
         "Some(I): all strings over {+,-,0..9} up to length %d and all numerals (sign? 0^j digits, j up to PaddingBound(r) <= %d) of "
-        "the probe values -30..30, +-99..101, +-120, +-999, +-1000 and the neighbours of every finite bound. compression: TLC "
+        "the probe values -21..21, +-99..101, +-120, +-999, +-1000 and the neighbours of every finite bound. compression: TLC "
         "enumerates all lists up to length %d over {a, a*, a+, b, b*}, plus %d random lists; all strings over the letters of the "
         "list up to length %d. evaluations = strings/values decided; distinct_nontrivial = distinct regexes with Some(I) and a "
         "matched probe value + distinct lists that compression changed and whose language is neither empty nor full"
